@@ -4,8 +4,9 @@
   library by the ops `bi_*` of Mpir/Ops/Binvert.lean.
 -/
 import MpirProofs.Lemmas.BinvertMain
+import MpirProofs.Lemmas.BinvertPinned
 namespace Mpir.Binvert
-open Mpir Mpir.Powm Mpir.PowmL Mpir.Mm1
+open Mpir Mpir.Powm Mpir.PowmL Mpir.Mm1 Mpir.Hgcd
 
 /-- **The precision schedule of mpn_binvert terminates** (binvert.c:69-71) for every `n ≥ 1` and every
     BINV_NEWTON_THRESHOLD ≥ 2 (with 0 or 1 the C loop `rn = (rn + 1) >> 1` stays at 1 above the threshold for ever):
@@ -93,5 +94,64 @@ theorem binvert_npows_ok (thr n : Nat) (hthr : 2 ≤ thr) (hn : 1 ≤ n) (hn46 :
 -- non-vacuity: threshold 300: NPOWS = 39; 2^46 limbs need 38 entries; threshold 2 needs 46 of 46
 example : npows 300 = 39 ∧ (schedule 300 (2 ^ 46) (2 ^ 46)).1.length = 38 ∧ npows 2 = 46 ∧
     (schedule 2 (2 ^ 46) (2 ^ 46)).1.length = 46 := by decide +kernel
+
+/-- **mpn_binvert of the pinned build, unconditionally** (FFT_MULMOD_2EXPP1_CUTOFF = 128, FFT_N_NUM = 19, MULMOD_TAB):
+    `mpn_binvert_correct` with its hypotheses on mpn_mulmod_bnm1_next_size discharged (`bnm1NextSize_gap`: the rounding of
+    mpir_fft_adjust_limbs adds less than ⌈k/2⌉ limbs for EVERY k — for depths ≥ 7 because the two roundings collapse into
+    one —, `bnm1NextSize_mono`) and `sizes[NPOWS]` by `binvert_npows_ok`: for every `1 ≤ n ≤ 2^46`, every odd U, every
+    BINV_NEWTON_THRESHOLD ≥ 2, DC_BDIV_Q_THRESHOLD ≥ 6, any MULMOD_2EXPM1_THRESHOLD, scratch of `mpn_binvert_itch (n)` limbs
+    with arbitrary contents: all accesses in range, n limbs, `R·U ≡ 1 (mod B^n)`.  Remaining assumptions: the contract
+    `P1Spec` of the +1 half (FFT branch) and the contract of mpn_dc_bdiv_q for base sizes ≥ DC_BDIV_Q_THRESHOLD. -/
+theorem mpn_binvert_correct_pinned (thr dcThr mthr : Nat) (pp1 : List Nat → List Nat → Nat → Nat → List Nat × Nat)
+    (hpp1 : P1Spec pp1) (jk : Nat → Nat) (up rp0 xp0 : List Nat)
+    (hn : 1 ≤ rp0.length) (hn46 : rp0.length ≤ 2 ^ 46) (hup : Limbs up) (hlen : up.length = rp0.length)
+    (hodd : up.headD 0 % 2 = 1) (hthr : 2 ≤ thr) (hdc : 6 ≤ dcThr)
+    (hitch : binvItch (bnm1NextSize 128 19 tab19) rp0.length ≤ xp0.length) :
+    (mpnBinvert thr dcThr mthr pp1 (bnm1NextSize 128 19 tab19) jk up rp0 xp0).2 = true ∧
+    Limbs (mpnBinvert thr dcThr mthr pp1 (bnm1NextSize 128 19 tab19) jk up rp0 xp0).1 ∧
+    (mpnBinvert thr dcThr mthr pp1 (bnm1NextSize 128 19 tab19) jk up rp0 xp0).1.length = rp0.length ∧
+    (val (mpnBinvert thr dcThr mthr pp1 (bnm1NextSize 128 19 tab19) jk up rp0 xp0).1 * val up) % B ^ rp0.length = 1 :=
+  mpn_binvert_correct thr dcThr mthr pp1 hpp1 _ jk up rp0 xp0 hn hup hlen hodd hthr hdc hitch
+    bnm1NextSize_gap bnm1NextSize_mono (binvert_npows_ok thr _ hthr hn hn46)
+
+-- the function the driver runs (generated parameters) is this next-size function; the gap at the worst small size
+example : Mpir.Ops.Hgcd.nextSize = bnm1NextSize 128 19 tab19 := by rfl
+example : bnm1NextSize 128 19 tab19 257 = 320 ∧ binvItch (bnm1NextSize 128 19 tab19) 1000 = 6364 := by decide +kernel
+
+/-- **The limbs mpn_binvert leaves at `rp` are those of the value-level `Powm.binvert`** — the `mip` that `mpn_powm`'s
+    model `PowmL.mipOf` and `redc_n` take (hypothesis `ip·m ≡ 1 (mod B^n)` of `redc_n_limb_spec` / `redc_n_unconditional`,
+    positive inverse): by uniqueness of the inverse modulo `B^n`, the memory model of mpn_binvert (binvert.c as it is, run
+    in the caller's scratch `tp`) returns exactly `toLimbs n (binvert U n)` with every access in range.  So the line
+    `mpn_binvert (mip, mp, n, tp)` of powm.c:219 is covered by `mpn_powm_correct_pinned` for `binvItch n ≤ itch`. -/
+theorem mpn_binvert_value (thr dcThr mthr : Nat) (pp1 : List Nat → List Nat → Nat → Nat → List Nat × Nat)
+    (hpp1 : P1Spec pp1) (jk : Nat → Nat) (up rp0 xp0 : List Nat)
+    (hn : 1 ≤ rp0.length) (hn46 : rp0.length ≤ 2 ^ 46) (hup : Limbs up) (hlen : up.length = rp0.length)
+    (hodd : up.headD 0 % 2 = 1) (hthr : 2 ≤ thr) (hdc : 6 ≤ dcThr)
+    (hitch : binvItch (bnm1NextSize 128 19 tab19) rp0.length ≤ xp0.length) :
+    mpnBinvert thr dcThr mthr pp1 (bnm1NextSize 128 19 tab19) jk up rp0 xp0 =
+      (toLimbs rp0.length (binvert (val up) rp0.length), true) := by
+  obtain ⟨h1, h2, h3, h4⟩ := mpn_binvert_correct_pinned thr dcThr mthr pp1 hpp1 jk up rp0 xp0 hn hn46 hup hlen hodd hthr
+    hdc hitch
+  have hs := binvert_spec (val up) rp0.length hn (by rw [val_mod_two]; exact hodd)
+  have hlt := val_lt _ h2
+  rw [h3] at hlt
+  have hb : binvert (val up) rp0.length < B ^ rp0.length := by unfold binvert; exact binvertLoop_lt _ _ _ _ _
+  have hv := inverse_unique _ _ _ _ hlt hb h4 hs
+  exact Prod.ext (PowmL.eq_toLimbs _ _ _ h2 h3 hv) h1
+
+/-- the `mip` of mpn_powm's memory model (`PowmL.mipOf`, REDC_N branch) IS the output of mpn_binvert's memory model -/
+theorem mipOf_eq_mpn_binvert (rthr thr dcThr mthr : Nat) (pp1 : List Nat → List Nat → Nat → Nat → List Nat × Nat)
+    (hpp1 : P1Spec pp1) (jk : Nat → Nat) (mp rp0 tp : List Nat)
+    (hr : rthr ≤ mp.length) (hn : 1 ≤ mp.length) (hn46 : mp.length ≤ 2 ^ 46) (hmp : Limbs mp) (hlen : rp0.length = mp.length)
+    (hodd : val mp % 2 = 1) (hthr : 2 ≤ thr) (hdc : 6 ≤ dcThr)
+    (hitch : binvItch (bnm1NextSize 128 19 tab19) mp.length ≤ tp.length) :
+    (mipOf rthr mp, true) = mpnBinvert thr dcThr mthr pp1 (bnm1NextSize 128 19 tab19) jk mp rp0 tp := by
+  rw [mpn_binvert_value thr dcThr mthr pp1 hpp1 jk mp rp0 tp (by omega) (by omega) hmp hlen.symm
+    (by rw [← val_mod_two]; exact hodd) hthr hdc (by rw [hlen]; exact hitch)]
+  unfold mipOf
+  rw [if_neg (by omega), hlen]
+
+example : mpnBinvert 2 6 12 Fft.mulmod_2expp1_basecase (bnm1NextSize 128 19 tab19) (fun _ => 7) [3, 5, 9] [5, 5, 5]
+    (List.replicate 238 9) = (toLimbs 3 (binvert (val [3, 5, 9]) 3), true) := by decide +kernel
 
 end Mpir.Binvert
